@@ -145,7 +145,14 @@ def make_berte(repo, host, **settings):
                 pull_request_base_url='http://x/{pr_id}',
                 commit_base_url='http://x/{commit_id}', pr_author_options={},
                 repository_host='mock', repository_owner='owner',
-                repository_slug='slug', admins=[], project_leaders=[])
+                repository_slug='slug', admins=[], project_leaders=[],
+                # defaults of the settings schema that the code may read
+                use_queues=True, disable_queues=False, organization='', cmd_line_options=[],
+                always_create_integration_pull_requests=True,
+                always_create_integration_branches=True, need_author_approval=True,
+                required_leader_approvals=0, required_peer_approvals=2, jira_account_url='',
+                jira_email='', jira_keys=[], prefixes={}, bypass_prefixes=[],
+                disable_version_checks=False, max_commit_diff=0)
     base.update(settings)
     b = BertE.__new__(BertE)
     b.settings = SettingsDict(base)
@@ -615,6 +622,129 @@ def scenario_queue_then_merge(ctx, shape, pr, natoms, no_octopus=True, nfresh=8,
     return repo, host, out1, out2
 
 
+# -- the whole pull-request handler -------------------------------------------------------------
+class HandlerHost(Host):
+    """Host stub for complete _handle_pull_request runs: the PR under evaluation
+    is fully approved (approvals are not the subject), no integration PRs."""
+
+    def __init__(self, repo, prs, ctx, pr_status='OPEN'):
+        super().__init__(repo, prs, ctx)
+        self.pr_status = pr_status
+
+    def get_pull_request(self, pid):
+        p = super().get_pull_request(pid)
+        p.status = self.pr_status
+        p.comments = getattr(p, '_comments', None) or []
+        p._comments = p.comments
+        p.get_approvals = lambda: ['contributor', 'peer']
+        p.get_participants = lambda: ['contributor', 'peer']
+        p.get_change_requests = lambda: []
+        p.src_commit = None
+        return p
+
+    def create_pull_request(self, **kw):
+        self.ops.append(('create_pr', kw.get('src_branch')))
+        raise HarnessError('integration pull requests are disabled in this scenario')
+
+
+HANDLER_OUTCOMES = ('Queued', 'SuccessMessage', 'BuildNotStarted', 'BuildInProgress', 'BuildFailed',
+                    'Conflict', 'NothingToDo', 'QueueConflict', 'QueueOutOfOrder', 'PullRequestDeclined',
+                    'Merged', 'QueueBuildFailed', 'IncoherentQueues', 'DevBranchesNotSelfContained',
+                    'BranchHistoryMismatch')
+
+
+def run_handle_pr(repo, host, pr, mode, no_octopus=False, bypass_build=False):
+    """The real handle_pull_request (complete handler).  mode: queue / noqueue / skip."""
+    import bert_e.workflow.gitwaterflow as gwf
+    from bert_e.job import PullRequestJob
+    from bert_e import exceptions as ex
+    from bert_e.lib import git as G
+    berte = make_berte(
+        repo, host, use_queue=(mode != 'noqueue'), skip_queue_when_not_needed=(mode == 'skip'),
+        no_octopus=no_octopus, need_author_approval=False, required_peer_approvals=0,
+        required_leader_approvals=0, always_create_integration_branches=True,
+        always_create_integration_pull_requests=False, jira_keys=[], jira_email='',
+        jira_account_url='', bypass_prefixes=[], prefixes={}, max_commit_diff=0,
+        disable_version_checks=True, bypass_build_status=bypass_build)
+    job = PullRequestJob(bert_e=berte, pull_request=host.get_pull_request(pr.id))
+    try:
+        gwf.handle_pull_request(job)
+        return 'returned'
+    except ex.BertE_Exception as e:
+        return type(e).__name__
+    except G.PushFailedException:
+        return 'PushFailed'
+    except G.MergeFailedException:
+        return 'MergeFailed'
+
+
+def handler_refs(shape, pr, mode, with_w=True, queued=False):
+    refs = list(shape) + [pr.src]
+    ts = targets(shape, pr.dst)
+    if with_w:
+        refs += [w_name(pr, t) for t in ts[1:]]
+    if mode != 'noqueue':
+        refs += ['q/' + version_of(d) for d in shape]
+    return refs
+
+
+def mon_handler_builds(shape, pr, bypass, host):
+    """C06 on the whole handler.  (i) A pull request is queued only if the tips
+    of its integration branches on the remote are SUCCESSFUL.  (ii) In a direct
+    merge every target beyond the first was built with its destination inside:
+    the commit whose status the gate read for target k contains the tip that
+    destination k had before the merge (otherwise what lands was never built)."""
+    ok = symgit.STATUSES.index('SUCCESSFUL')
+    ts = targets(shape, pr.dst)
+
+    def mon(repo, op):
+        out = []
+        if op['kind'] == 'update' and op['ref'] in ts and op['old'] is not None:
+            k = ts.index(op['ref'])
+            asked = [sha for (sha, key) in host.asked if key == BUILD_KEY]
+            if len(asked) >= len(ts):
+                gate = asked[-len(ts):]
+                out.append(('C06 merged although the build of %s was not SUCCESSFUL'
+                            % ('the source tip' if k == 0 else 'an integration tip'),
+                            z3.Or(bypass, repo.status_of(gate[k].idx) == ok)))
+                if k >= 1:
+                    out.append(('C06 the integration commit that was built does not contain its '
+                                'destination (stale build)',
+                                z3.Or(bypass, repo.subset_t(repo.cl(op['old']), repo.cl(gate[k].idx)))))
+            else:
+                out.append(('C06 destination moved without reading the build statuses', bypass))
+        if op['kind'] == 'update' and op['ref'].startswith('q/w/'):
+            for k, t in enumerate(ts):
+                r = pr.src if k == 0 else w_name(pr, t)
+                if r in repo.remote:
+                    out.append(('C06 queued although the build of %s is not SUCCESSFUL'
+                                % ('the source tip' if k == 0 else 'an integration tip'),
+                                z3.Or(bypass, repo.status_of(repo.remote[r]) == ok)))
+        return out
+    return mon
+
+
+def scenario_handle_pr(ctx, shape, pr, natoms, mode, monitors_of, no_octopus=False, nfresh=10,
+                       with_w=True, pr_status='OPEN', pre=None):
+    import bert_e.workflow.gitwaterflow as gwf
+    refs = handler_refs(shape, pr, mode, with_w)
+    repo = SymRepo(ctx, refs, natoms, nfresh)
+    repo.log_cut = True        # cut: history-mismatch check and commit listings in messages
+    ctx.assume(symgit.status_domain(repo, natoms + nfresh))
+    assume_inclusion(ctx, repo, shape)
+    if mode != 'noqueue':
+        # empty queues: q/<v> sits on its destination
+        for d in shape:
+            ctx.assume(repo.remote['q/' + version_of(d)] == repo.remote[d])
+    if pre:
+        pre(ctx, repo)
+    byp = z3.Bool('bypass_build_status')
+    host = HandlerHost(repo, [pr], ctx, pr_status)
+    repo.monitors = list(monitors_of(byp, host))
+    out = run_handle_pr(repo, host, pr, mode, no_octopus, SBool(byp))
+    return repo, host, out
+
+
 # -- counterexamples: concretise, replay on a real repository ----------------------------------
 def cex_data(scenario, shape, prs, v, **params):
     return dict(scenario=scenario, shape=list(shape),
@@ -728,6 +858,13 @@ def replay_on_real_git(data, crash_after_pushes=None, interference=None):
                     out = run_skip_queue(repo, host, shape, prs[0],
                                          data['params'].get('no_octopus', False),
                                          bool(data['params'].get('bypass', False)))
+                elif data['scenario'] == 'handle_pr':
+                    import bert_e.workflow.gitwaterflow as gwf
+                    gwf.setup({})
+                    host.pr_status = data['params'].get('pr_status', 'OPEN')
+                    out = run_handle_pr(repo, host, prs[0], data['params']['mode'],
+                                        data['params'].get('no_octopus', False),
+                                        bool(data['params'].get('bypass', False)))
                 elif data['scenario'] == 'queue_then_merge':
                     host.default = 'SUCCESSFUL'      # builds of the new queue commits went green
                     run_add_to_queue(repo, host, shape, prs[0], data['params'].get('no_octopus', True))
@@ -751,6 +888,19 @@ def replay_on_real_git(data, crash_after_pushes=None, interference=None):
                                   'Q' if data['scenario'] == 'merge_queues' else 'D')
         if data['scenario'] == 'queue_then_merge':
             bad = [b for b in bad if not b.startswith('C03')]
+        if data['scenario'] == 'handle_pr':
+            ts = targets(shape, prs[0].dst)
+            asked = getattr(host, 'asked', [])
+            if len(asked) >= len(ts):
+                gate = asked[-len(ts):]
+                for k in range(1, len(ts)):
+                    if heads.get(ts[k]) != pre_heads.get(ts[k]) and not world.is_ancestor(pre_heads[ts[k]], gate[k]):
+                        bad.append('C06 the integration commit that was built does not contain its '
+                                   'destination (stale build)')
+            if data['params'].get('pr_status') == 'DECLINED':
+                left = [r for r in heads if r.startswith('w/') and r.endswith('/' + prs[0].src)]
+                if left:
+                    bad.append('C19 declined parent: integration branches left on the remote')
         return bad, out
     finally:
         world.cleanup()
